@@ -128,8 +128,11 @@ def run_set(name, prop, repo, verif, workdir, mods, harnesses, log, bounded=None
     except Exception as e:
         st.undecided.append(f"kani scratch crate: {e}")
         return st
-    target = os.path.join(verif, ".cache", "kani-target")
+    target = os.path.join(verif, ".cache", "kani-target-" + prop)
     os.makedirs(target, exist_ok=True)
+    import fcntl
+    lockf = open(os.path.join(target, ".verif-lock"), "w")
+    fcntl.flock(lockf, fcntl.LOCK_EX)  # two runs of the same property's Kani stage must not share a target dir concurrently
     # first harness alone (builds the crate), the rest in parallel
     results = []
     first = run_harness(crate, harnesses[0][0], target, timeout, mem_mb, extra)
